@@ -22,6 +22,7 @@ import json
 import os
 import pickle
 import re
+import signal
 import sys
 import threading
 
@@ -648,7 +649,28 @@ def main():
     if mode == 'server':
         res = [run_server_case(c) for c in req['cases']]
     elif mode == 'client':
-        res = [run_client_case(c) for c in req['cases']]
+        # a client operation that never returns (e.g. a handshake both sides wait in) must not
+        # block the check: the case is reported as hanging and the run stops there
+        class CaseTimeout(Exception):
+            pass
+
+        def on_alarm(signum, frame):
+            raise CaseTimeout()
+        signal.signal(signal.SIGALRM, on_alarm)
+        res = []
+        for c in req['cases']:
+            signal.setitimer(signal.ITIMER_REAL, 25 + len(c))
+            try:
+                res.append(run_client_case(c))
+            except CaseTimeout:
+                res.append([dict(hang=True)])
+                break
+            except Exception as exc:
+                signal.setitimer(signal.ITIMER_REAL, 0)
+                res.append([dict(hang=True, error='%s: %s' % (type(exc).__name__, exc))])
+                break
+            finally:
+                signal.setitimer(signal.ITIMER_REAL, 0)
     elif mode == 'procs':
         res = [run_procs_case(c) for c in req['cases']]
     else:
